@@ -42,10 +42,15 @@ let get_inc s = match Hashtbl.find slots s with Inc (v, st) -> (v, st)
 let process (toks : string list) : string =
   match toks with
   | ["PERM"; r; st] -> hex_of_bytes (x_perm (nat_of_int (int_of_string r)) (bytes_of_hex st))
-  | ["AE"; v; "ENC"; k; n; ad; pt] ->
+  | ["AE"; v; "ENC"; k; n; ad; pt] | ["AEM"; v; "ENC"; k; n; ad; pt] | "AEC" :: v :: "ENC" :: k :: n :: ad :: pt :: _ ->
     let (c, clen) = x_aead_encrypt (variant v) (bytes_of_hex k) (bytes_of_hex n) (bytes_of_hex ad) (bytes_of_hex pt) in
     Printf.sprintf "%s %d" (hex_of_bytes c) (int_of_nat clen)
-  | ["AE"; v; "DEC"; k; n; ad; ct] ->
+  | "AEC" :: v :: "DEC" :: k :: n :: ad :: ct :: _ :: "BA" :: _ ->
+    (* C++ byte_array overload: the output array is emptied on failure *)
+    (match x_aead_decrypt (variant v) (bytes_of_hex k) (bytes_of_hex n) (bytes_of_hex ad) (bytes_of_hex ct) with
+     | DecShort -> "SHORT"
+     | DecDone (r, m) -> if int_of_z r = 0 then "0 " ^ hex_of_bytes m else "-1 BA")
+  | ["AE"; v; "DEC"; k; n; ad; ct] | ["AEM"; v; "DEC"; k; n; ad; ct] | "AEC" :: v :: "DEC" :: k :: n :: ad :: ct :: _ ->
     (match x_aead_decrypt (variant v) (bytes_of_hex k) (bytes_of_hex n) (bytes_of_hex ad) (bytes_of_hex ct) with
      | DecShort -> "SHORT"
      | DecDone (r, m) -> Printf.sprintf "%d %s" (int_of_z r) (hex_of_bytes m))
@@ -80,6 +85,8 @@ let process (toks : string list) : string =
     let s = int_of_string s in let (v, st) = get_inc s in
     let (st', r) = x_inc_decrypt_finalize v st (bytes_of_hex t) in
     Hashtbl.replace slots s (Inc (v, st')); string_of_int (int_of_z r)
+  | ["AI"; s; "FREE"] -> Hashtbl.remove slots (int_of_string s); "OK"
+  | "TRNG" :: _ -> "OK"
   | ["AI"; s; "NONCE"] ->
     let (_, st) = get_inc (int_of_string s) in hex_of_bytes st.i_nonce
   | _ -> "UNSUPPORTED"
